@@ -56,9 +56,10 @@ _Q = {
     'out-of-view-probe-nul-variant': 600,
     'hit:interleaved-scans': 5000, 'mon:interleave': 40000,
 }
+_BULK = {'hit:bulk-absolute-path': 6, 'hit:bulk-relative-path': 6}
 # thorough runs 10x the quick number of histories
-MIN_HITS = {'quick': dict(_Q, **{'hit:fresh-interpreter-history': 80}),
-            'thorough': dict({k: 10 * v for k, v in _Q.items()}, **{'hit:fresh-interpreter-history': 600})}
+MIN_HITS = {'quick': dict(_Q, **{'hit:fresh-interpreter-history': 80}, **_BULK),
+            'thorough': dict({k: 10 * v for k, v in _Q.items()}, **{'hit:fresh-interpreter-history': 600}, **{k: 6 * v for k, v in _BULK.items()})}
 TECHNIQUE = ('runtime monitoring: dict reference model + 5-way implementation differential (in-memory, SQLite via the real '
              'builder, both subset-wrapped, SQLite under reverse_unordered_selects) over random view-operation histories with '
              'value-tracing preprocessors and re-observation of every ancestor view')
@@ -763,6 +764,72 @@ def run_case(ctx, fedjax, mods, rng, tmpdir, case_no):
         pass
 
 
+def run_bulk(ctx, mods, rng, tmpdir, case_no):
+  """Thousands of clients written by ONE add_many call (list or generator): counts, ids, sizes and spot-checked examples of the
+  SQLite dataset (opened by absolute and by relative path) against the in-memory dataset built from the same mapping."""
+  fdm, im, sq = mods
+  n = int([1001, 1024, 1500, 2049, 3500, 4097][case_no % 6]) + int(rng.randint(0, 3))
+  ids = sorted({b'k%05d' % int(v) for v in rng.choice(10**5, size=n, replace=False)})
+  rows = rng.randint(0, 3, size=len(ids))
+  table, base = {}, 0
+  for c, r in zip(ids, rows):
+    table[c] = {'idx': np.arange(base, base + int(r), dtype=np.int64)}
+    base += int(r)
+  path = os.path.join(tmpdir, f'bulk{case_no}.sqlite')
+  as_gen = bool(rng.rand() < 0.5)
+  wit = {'family': 'bulk', 'clients': len(ids), 'add_many_input': 'generator' if as_gen else 'list'}
+  conns = []
+  try:
+
+    def build():
+      with sq.SQLiteFederatedDataBuilder(path) as b:
+        b.add_many(((c, table[c]) for c in ids) if as_gen else [(c, table[c]) for c in ids])
+
+    if not ctx.call('SQLiteFederatedDataBuilder', build, witness=wit).ok:
+      return ctx.case_done(None, sample=wit, klass=['bulk', 'builder-failed'])
+    mem = im.InMemoryFederatedData(table)
+    rel = os.path.relpath(path, os.getcwd())
+    for how, p_ in (('absolute-path', path), ('relative-path', rel)):
+      w = dict(wit, opened_by=how)
+      r = ctx.call('SQLiteFederatedData.new', sq.SQLiteFederatedData.new, p_, witness=dict(w, path=p_))
+      if not r.ok:
+        continue
+      fd = r.value
+      conns.append(getattr(fd, '_connection', None))
+      ctx.count('hit:bulk-' + how)
+      r = ctx.call('num_clients', fd.num_clients, witness=w)
+      if r.ok:
+        ctx.check(r.value == len(ids) == mem.num_clients(), 'ids/num_clients', f'num_clients()={r.value}, wrote {len(ids)} clients', w)
+      r = ctx.call('client_ids', lambda: list(fd.client_ids()), witness=w)
+      if r.ok:
+        missing = sorted(set(ids) - set(r.value))
+        ctx.check(sorted(r.value) == ids, 'ids/client_ids-set', f'client_ids() differs from the written ids ({len(r.value)} of {len(ids)}; '
+                  f'first missing at input positions {[ids.index(m) for m in missing[:5]]})', w)
+      r = ctx.call('client_sizes', lambda: dict(fd.client_sizes()), witness=w)
+      if r.ok:
+        ctx.check(r.value == {c: int(k) for c, k in zip(ids, rows)}, 'sizes/vs-reference', 'client_sizes() differs from the written row counts', w)
+      spots = sorted({0, 1, len(ids) - 1, len(ids) - 2} | {p for q in (999, 1000, 1001, 1023, 1024, 2000, 2001, 2002, 2048, 3002, 3003, 4096)
+                                                            for p in (q,) if p < len(ids)})
+      for pos in spots:
+        c = ids[pos]
+        r = ctx.call('get_client', lambda c=c: fd.get_client(c).all_examples(), witness=dict(w, client=c, input_position=pos))
+        if r.ok:
+          ctx.check(set(r.value) == {'idx'} and bit_equal(r.value['idx'], table[c]['idx']), 'examples/get_client',
+                    f'get_client(id at input position {pos}) differs from what was written', dict(w, client=c))
+    ctx.case_done(('bulk', len(ids), as_gen), sample=wit, klass=['bulk'])
+  finally:
+    for c in conns:
+      try:
+        c.close()
+      except Exception:  # pylint: disable=broad-except
+        pass
+    for suffix in ('', '-journal', '-wal', '-shm'):
+      try:
+        os.remove(path + suffix)
+      except OSError:
+        pass
+
+
 def install_contract(ctx, fdm):
   """icontract postcondition on intersect_slice_ranges (reached through the module attribute by SQLite slice()).
 
@@ -799,6 +866,9 @@ def run(ctx):
       run_case(ctx, fedjax, (fdm, im, sq), rng, tmpdir, int(cid.split('/')[1]))
       traces[cid] = ORDER_TRACE
       ORDER_TRACE = None
+    if not ctx.xproc_child:
+      for cid, rng in ctx.cases('bulk', 8 if ctx.quick else 42):
+        run_bulk(ctx, (fdm, im, sq), rng, tmpdir, int(cid.split('/')[1]))
   finally:
     shutil.rmtree(tmpdir, ignore_errors=True)
   if ctx.xproc_child:
